@@ -502,6 +502,21 @@ fn xyo(a: &P3, angle: f64, roll: f64, origin: &P3) -> Verdict {
     let b2 = ua.cross(&b1);
     let ib = iso3_from_basis(&[ua, b1, b2], &o);
     ensure!((ib * o).coords.norm() <= 1e-9 * (1.0 + o.coords.norm()) && (ib * ua - Vector3::x()).norm() <= tol && (ib * b1 - Vector3::y()).norm() <= tol && (ib * b2 - Vector3::z()).norm() <= tol, "C19/iso3_from_basis/axes", "basis vectors do not map onto the coordinate axes");
+    // the same constructor given the two vectors as they are (any lengths, not perpendicular) and a third of either
+    // handedness: first axis kept exactly, second vector in the upper xy half-plane, a proper rotation
+    for sign in [1.0, -1.0] {
+        let third = ua.cross(&y) * sign;
+        let ik = match guarded(|| iso3_from_basis(&[ua * 2.5, y * 0.4, third], &o)) {
+            Ok(i) => i,
+            Err(m) => return Verdict::fail("C19/iso3_from_basis/panic", m),
+        };
+        let ym = ik * y.normalize();
+        let rm = *ik.rotation.to_rotation_matrix().matrix();
+        ensure!((ik * o).coords.norm() <= 1e-9 * (1.0 + o.coords.norm()), "C19/iso3_from_basis/skew/origin", "origin maps to {:?}", ik * o);
+        ensure!((ik * ua - Vector3::x()).norm() <= tol, "C19/iso3_from_basis/skew/x_axis", "the normalised first vector maps to {:?} (second vector at {:e} rad from it)", ik * ua, ua.angle(&y));
+        ensure!(ym.y > 0.0 && ym.z.abs() <= tol, "C19/iso3_from_basis/skew/y_half_plane", "the second vector maps to {:?}, expected z = 0 and y > 0 (angle between the two {:e} rad)", ym, ua.angle(&y));
+        ensure!((rm.determinant() - 1.0).abs() <= 1e-9 && (rm.transpose() * rm - rm.clone_owned().map(|_| 0.0) - { let mut i = rm.clone_owned().map(|_| 0.0); i[(0, 0)] = 1.0; i[(1, 1)] = 1.0; i[(2, 2)] = 1.0; i }).norm() <= 1e-9, "C19/iso3_from_basis/skew/proper_rotation", "not a proper rotation");
+    }
     cx.nontrivial();
     cx.pass()
 }
